@@ -17,7 +17,7 @@
 (*        while q is empty and a sender only while q is full (no lost wake-up of RingChannel);                                *)
 (*   Quiesce{left}            : after the harness drained the queue with ordinary pops nothing is pending and                *)
 (*        Len(q) = left = read_available() (so every value reported pushed was received exactly once).                       *)
-(*   Gate{..}                 : bookkeeping of the directed scenarios (a thread held right before idler.fetch_add /           *)
+(*   Gate{..}, Observed{..}   : bookkeeping of the directed scenarios (a thread held right before idler.fetch_add /           *)
 (*        send_waiters.fetch_add while the partner call completes); no condition.                                           *)
 (*   A Hang event has no action.                                                                                              *)
 (* Silent steps are taken only right before a Resp / Settle / Quiesce event (a linearization point commutes with later        *)
@@ -79,7 +79,7 @@ Settle == /\ Ev("Settle")
 Quiesce == /\ Ev("Quiesce") /\ \A t \in T : pend[t].op = "none" /\ Len(q) = R.left
            /\ UNCHANGED <<cap, pfail, q, pend>>
 \* directed scenario bookkeeping (whether the held thread reached its gate): informational
-Gate == Ev("Gate") /\ UNCHANGED <<cap, pfail, q, pend>>
+Gate == (Ev("Gate") \/ Ev("Observed")) /\ UNCHANGED <<cap, pfail, q, pend>>
 Next == Reset \/ Inv \/ Resp \/ Settle \/ Quiesce \/ Gate \/ \E t \in T : LinPush(t) \/ LinPop(t)
 Spec == Init /\ [][Next]_vars
 NotAccepted == l <= Len(Tr)
